@@ -499,7 +499,19 @@ impl<'a> Gen<'a> {
                         // both operands at the edges of the integer range (i128::MIN op -1 ...)
                         let l = self.rng.pick(&["n_big", "n_edge", "(0 - n_edge - 1)", "(0 - n_edge)", "(-9223372036854775807 - 1)", "(n_big + 1)", "0"]);
                         let r = self.rng.pick(&["-1", "(0 - 1)", "0", "1", "2", "n_big", "n_edge", "(0 - n_edge - 1)", "-n_small", "(1 - 2)"]);
-                        format!("{} {} {}", l, op, r)
+                        match self.rng.below(8) {
+                            // the other operators at the edges: negation, abs, powers, float -> int
+                            0 => format!("-{}", l),
+                            1 => format!("{} | abs", l),
+                            2 => format!("{} ** {}", self.rng.pick(&["0", "1", "(0 - 1)", "2", "(0 - 2)", "10", "n_big", "n_edge"]), self.rng.pick(&["0", "1", "2", "126", "127", "128", "(0 - 1)", "n_small", "n_big", "n_edge"])),
+                            3 => format!("{} | {}", self.rng.pick(&["1e39", "(0 - 1e39)", "n_odd", "1.7e308", "170141183460469231731687303715884105727.0", "0.5", "(0 - 0.5)"]), self.rng.pick(&["int", "round | int", "round(precision=0) | int", "abs | int"])),
+                            // both operands the same extreme (u64::MAX * u64::MAX, i64::MIN * i64::MIN ...)
+                            4 | 5 => {
+                                let x = self.rng.pick(&["n_big", "n_edge", "n_int"]);
+                                format!("{} {} {}", x, self.rng.pick(&["*", "+", "-", "*"]), self.rng.pick(&[x, "n_big", "n_edge"]))
+                            }
+                            _ => format!("{} {} {}", l, op, r),
+                        }
                     } else {
                         format!("{} {} {}", self.expr_p(env, Kind::Int, d), op, self.expr_p(env, Kind::Int, d))
                     }
